@@ -88,6 +88,12 @@ func mxwResolve(w *world, h2 bool, tok string) string {
 			return "NF"
 		}
 		return "IF0"
+	case "W", "V":
+		// a connection event inside NewStream (multiplex pool only, see mxrace.go)
+		if h2 {
+			return ""
+		}
+		return tok + "0"
 	case "R", "L", "X":
 		if len(live) == 0 {
 			return ""
@@ -271,7 +277,25 @@ func mxwScripts(maxReq uint32) [][]string {
 		s = append(s, "N", "R", "N", "L", "N", "R")
 		out = append(out, s)
 	}
+	// connection closed between the creation of the stream and the listener registration, maxReq+1 times (a leaked slot
+	// makes the last NewStream overflow); the same with a request in flight; go-away between the state test and the
+	// creation of the stream, on an idle connection (closed at once) and on one with a request in flight (served)
+	{
+		s := []string{"I"}
+		for i := 0; i < rep; i++ {
+			s = append(s, "W", "I")
+		}
+		out = append(out, append(s, "N", "R", "N", "R"))
+		s = []string{"I"}
+		for i := 0; i < rep; i++ {
+			s = append(s, "V", "I")
+		}
+		out = append(out, append(s, "N", "R", "N", "R"))
+	}
 	out = append(out,
+		[]string{"I", "N", "W", "I", "N", "R", "W", "I", "N", "R"},
+		[]string{"I", "N", "V", "R", "R", "I", "N", "V", "L", "L", "I", "N", "R"},
+		[]string{"E+", "I", "W", "I", "V", "I", "N", "E-", "R", "W", "N", "I", "N", "R"},
 		[]string{"IF", "N", "IF", "N", "I", "N", "R", "N", "R"},
 		[]string{"E+", "I", "N", "E-", "N", "N", "R", "N", "E+", "N", "L", "E-", "N", "R!", "R"},
 		[]string{"I", "N", "N", "G", "I", "N", "R", "R", "R", "N", "R"},
@@ -304,6 +328,8 @@ func mxwGen(rng *hx.Rng, h2 bool, length, drainAt int) func(w *world, step int) 
 					add(fmt.Sprintf("I%d", k), 8)
 					add(fmt.Sprintf("IF%d", k), 1)
 					add(fmt.Sprintf("N%d", k), 34/len(slots)+1)
+					add(fmt.Sprintf("W%d", k), 3)
+					add(fmt.Sprintf("V%d", k), 3)
 				}
 			}
 			for _, k := range open {
